@@ -251,7 +251,7 @@ pub fn huge_docs() -> Vec<J> {
     ]
 }
 pub fn huge_queries() -> Vec<&'static str> {
-    vec!["$[*]", "$[100000]", "$[99999:100002]", "$[-1]", "$[-3:]", "$[::25000]", "$[?@ >= 99999]", "$[?@ == 100000]", "$.rows[100000]", "$.rows[-2]", "$.rows[?@.a]", "$..a", "$.rows[99998:100001:1]", "$.*", "$..*", "$.*[1].*", "$[?@[0] > 290]", "$..[0]"]
+    vec!["$[*]", "$[100000]", "$[99999:100002]", "$[-1]", "$[-3:]", "$[::25000]", "$[?@ >= 99999]", "$[?@ == 100000]", "$.rows[100000]", "$.rows[-2]", "$.rows[?@.a]", "$..a", "$.rows[99998:100001:1]", "$.*", "$..*", "$.*[1].*", "$[?@[0] > 290]", "$..[0]", "$[4000:100:-3]", "$[:10:-2]", "$[-1:-4000:-5]", "$[90000:10:-7]", "$[::-2]", "$[70000:3000:-64]", "$[3:99000:11]", "$.rows[50000:100:-3]", "$[0:3, *]", "$[1:4, 2:600]", "$[*, 0:3]"]
 }
 
 /// queries that aim at those boundaries
